@@ -1,5 +1,6 @@
 (* Flat encodings of the x86-64 pKVM hypercall PCI transport (Model/HypPci.v) for the correspondence     *)
-(* runner: kinds 1130..1199 (C11) and 1360..1398 (C13).  The model state is the transport the MODEL     *)
+(* runner: kinds 1130..1199 (C11), 1257 (C12) and 1360..1398 (C13).  The model state is the transport   *)
+(* the MODEL                                                                                             *)
 (* constructed (kind 1131); every later operation line (1140) is predicted from it.                     *)
 (*  1131 new              ins [mode; cmd; status; 6 x (kind, mask, val); 64 registers]                   *)
 (*                        outs [class; a; b; c; 99] ++ regions (paddr, size) ++ [99; cmd; status;        *)
@@ -19,6 +20,10 @@
 (*  1151 HypCam MONITOR   ins [ecam; phys_base; bus; dev; fn; reg; is_write; data; class; value] ++ trace *)
 (*  1152 HypCam MONITOR   ins [ecam; phys_base; bus; dev; fn; n] ++ n x (is_write, register, value) ++    *)
 (*                        observed trace: the i-th hypercall IS the i-th configuration access            *)
+(*  1257 HypCam MONITOR (C12) ins [ecam; phys_base; n] ++ n x (bus, dev, fn, reg, class, number of hypercalls,  *)
+(*                        address, size of the first hypercall): every valid request went to EXACTLY           *)
+(*                        phys_base + offset (in N), inside [phys_base, phys_base + window), distinct requests  *)
+(*                        to distinct addresses; invalid ones were refused without a hypercall                 *)
 (*  1361 config read      ins [wrapped; mode; present; base; size; s; a; off; answer] outs [class; value] ++ trace *)
 (*  1363 config write     ins [wrapped; mode; present; base; size; s; a; off; v]      outs [class; code] ++ trace  *)
 (*  1362 config MONITOR   ins [present; base; size; s; a; off; is_write; v; class; value] ++ observed trace *)
@@ -145,6 +150,20 @@ Definition hmon_cam_new (ins : list N) : list N :=
   | _ => cbad
   end.
 
+(* C12: the addresses of a batch of HypCam requests *)
+Fixpoint dec_camobs (fuel : nat) (l : list N) : list camobs :=
+  match fuel, l with
+  | S f, b :: d :: fn :: r :: c :: k :: a :: w :: rest => mkCO b d fn r c k a w :: dec_camobs f rest
+  | _, _ => []
+  end.
+Definition hmon_cam_addrs (ins : list N) : list N :=
+  match ins with
+  | ecam :: base :: n :: r =>
+      let obs := dec_camobs (ccnt n r) r in
+      [b2n ((lenN obs =? n) && (lenN r =? 8 * n) && hyp_cam_addrs_b (n2b ecam) base obs)]
+  | _ => cbad
+  end.
+
 (* configuration access: a transport whose device-specific region is (base, size), nothing else matters *)
 Definition cfg_trans (present base size : N) : htrans :=
   mkHT 0 (mkHR 0 0) (mkHR 0 0) 0 (mkHR 0 0) (if n2b present then Some (mkHR base size) else None).
@@ -183,12 +202,13 @@ Definition hyp_step (st : option htrans) (k : N) (ins : list N) : option htrans 
   if k =? 1150 then (st, hrun_cam ins) else
   if k =? 1151 then (st, hmon_cam ins) else
   if k =? 1152 then (st, hmon_cam_new ins) else
+  if k =? 1257 then (st, hmon_cam_addrs ins) else
   if k =? 1361 then (st, hrun_cfg_read ins) else
   if k =? 1362 then (st, hmon_cfg ins) else
   if k =? 1363 then (st, hrun_cfg_write ins) else
   (st, cbad).
 
 (* the kinds this file owns *)
-Definition hyp_kind (k : N) : bool := ((1130 <=? k) && (k <? 1200)) || ((1360 <=? k) && (k <? 1399)).
+Definition hyp_kind (k : N) : bool := ((1130 <=? k) && (k <? 1200)) || ((1360 <=? k) && (k <? 1399)) || (k =? 1257).
 Definition hyp_is_monitor (k : N) : bool :=
-  (k =? 1132) || (k =? 1141) || (k =? 1142) || (k =? 1143) || (k =? 1151) || (k =? 1152) || (k =? 1362).
+  (k =? 1132) || (k =? 1141) || (k =? 1142) || (k =? 1143) || (k =? 1151) || (k =? 1152) || (k =? 1362) || (k =? 1257).
